@@ -13,6 +13,7 @@ TKINDS = ['home', 'home-own-volume', 'top', 'alt', 'alt-root', 'trash-dir']
 def config(tier):
     return {
         'level': 'exploration',
+        'cold_sample': 2 if tier == 'quick' else 15,
         'cases': 1600 if tier == 'quick' else 30000,
         'budget_s': 55 if tier == 'quick' else 560,
         'floors': {'cases': 150, 'readings_compared': 300,
